@@ -76,6 +76,32 @@ Theorem C09_fix_meets_spec_seq : forall sc,
 Proof. exact fix_meets_spec_seq. Qed.
 Print Assumptions C09_fix_meets_spec_seq.
 
+(* the catalog marker is atomic: at every moment of every execution (any fault at any chunk position,
+   reader / worker / writer, any interleaving; in particular while and after a pre-existing valid
+   catalog is being overwritten) a path that opens as a catalog is the untouched pre-existing one or
+   holds the complete input: the old marker never outlives the old data, the new one is written last *)
+Theorem C09_openable_only_old_or_complete : forall sc s, reach v_fix sc s -> openable (dk s) = true ->
+  dk s = pre sc \/ dk s = TDir false (input sc) true.
+Proof. exact openable_any_moment. Qed.
+Print Assumptions C09_openable_only_old_or_complete.
+
+Theorem C09_openable_only_old_or_complete_seq : forall sc, openable (snd (seq_run v_fix sc)) = true ->
+  snd (seq_run v_fix sc) = pre sc \/ snd (seq_run v_fix sc) = TDir false (input sc) true.
+Proof. exact openable_seq. Qed.
+Print Assumptions C09_openable_only_old_or_complete_seq.
+
+(* the clause the harness evaluates on what Catalog(path) holds after the call (cl_open_exact) holds of
+   the repaired algorithm, in both modes *)
+Theorem C09_fix_meets_open_spec : forall sc s, reach v_fix sc s -> final s = true ->
+  cl_open_exact (model_obs sc (outcome_of s)) (held_of sc (dk s)) = true.
+Proof. exact fix_meets_open_spec. Qed.
+Print Assumptions C09_fix_meets_open_spec.
+
+Theorem C09_fix_meets_open_spec_seq : forall sc,
+  cl_open_exact (model_obs sc (fst (seq_run v_fix sc))) (held_of sc (snd (seq_run v_fix sc))) = true.
+Proof. exact fix_meets_open_spec_seq. Qed.
+Print Assumptions C09_fix_meets_open_spec_seq.
+
 (* --- the algorithm as it stands --- *)
 (* F9b: an exception in the main loop skips the sentinel; join and get wait for each other *)
 Theorem C09_hang_refuted : exists sc s, reach v_cur sc s /\ stuck v_cur sc s.
@@ -122,4 +148,20 @@ Example C09_concrete :
   seq_run v_cur sc = (Raise, TDir false [1; 2] true) /\
   par_all v_fix (mk_scen 5 None (TDir false [7; 8] true) true false false)
     = Some (Return ([1; 2; 3; 4; 5], true), TDir false [1; 2; 3; 4; 5] true).
+Proof. vm_compute. repeat split; reflexivity. Qed.
+
+(* non-vacuity of the marker clause: a NaN in the last of four chunks while a valid catalog of three
+   patches is overwritten.  Repaired: raises in both modes, the path does not open (checker code 64 = only "does not
+   follow the current algorithm").  An observation "raised, the path opens and holds part of the new
+   data" (what an overwrite that keeps the old patch_ids.bin leaves behind) violates cl_not_openable and
+   cl_open_exact and follows neither model: flags 0, 1, 5, 6, 7, 8, 9. *)
+Example C09_concrete_overwrite :
+  let sc := mk_scen 4 (mk_fault InReader 3 NonFinite) (old_catalog 3) true false false in
+  par_all v_fix sc = Some (Raise, TDir false [1; 2; 3] false) /\
+  seq_run v_fix sc = (Raise, TDir false [1; 2; 3] false) /\
+  held_of sc (TDir false [1; 2; 3] true) = HOther /\
+  c09_case_held true sc ORaise false false HClosed = 64 /\
+  c09_case_held false sc ORaise false false HClosed = 64 /\
+  c09_case_held false sc ORaise false true HOther = 1 + 2 + 32 + 64 + 128 + 256 + 512 /\
+  c09_case_held true sc ORaise false true HOther = 1 + 2 + 32 + 64 + 128 + 256 + 512.
 Proof. vm_compute. repeat split; reflexivity. Qed.
